@@ -410,7 +410,7 @@ Definition al := approx_list.
 
 class C17(Property):
     id = "C17"
-    gen_targets = ["Kernels", "UtilsGlue", "MatchGlue"]
+    gen_targets = ["Kernels", "UtilsGlue"]
     rule = ("exhaustive over lengths x n for the structural helpers (oversample, extend in all directions with default and explicit "
             "end values, 2-D layouts, averaging, round trip) plus seeded random operations over all 16 helper operations; "
             "distinct = distinct (op, parameters, array)")
